@@ -48,10 +48,29 @@ impl Check for C05 {
         let mut doc = cases::doc_opts_for(tier, &mut rng);
         doc.pay.max_len = doc.pay.max_len.min(if rng.chance(1, 20) { 70_000 } else { 200 });
         let io = InputOpts { doc, faulted_pct: 40, truncated_pct: 5, random_pct: 20, soup_pct: 20, max_faults: 4 };
-        let gi = cases::gen_input(&mut rng, &spec, &io, &mut fs);
+        let mut gi = cases::gen_input(&mut rng, &spec, &io, &mut fs);
+        let mut deep_master: Option<u64> = None;
+        if rng.chance(1, 400) {
+            // deep nesting: a master inside up to 400 further instances of itself (recursion depth of
+            // path matching, of the open-master scans and of the Full roll-up)
+            let depth = *rng.pick(&[20usize, 60, 150, 400]);
+            if let Some((doc, g)) = crate::gen::gen_deep_doc(&mut rng, &spec, depth) {
+                gi.bytes = crate::enc::encode(&doc).bytes;
+                gi.class = "deep-nesting";
+                deep_master = Some(g);
+                if rng.chance(1, 3) {
+                    crate::gen::byte_faults(&mut rng, &mut gi.bytes, 2, &mut fs);
+                }
+            }
+        }
         let mut cfg = IterCfg::default();
         cfg.allow = cases::gen_allow(&mut rng, 30);
         cfg.buffered = cases::gen_buffered(&mut rng, &spec, 25);
+        if let Some(g) = deep_master {
+            if rng.chance(1, 2) {
+                cfg.buffered = vec![g];
+            }
+        }
         cfg.max_size = MaxSz::Limit(*rng.pick(&[0usize, 1, 8, 64, 1000, 70_000, 1 << 20]));
         cfg.eof_end = !rng.chance(1, 4);
         cfg.capacity = io::gen_capacity(&mut rng, gi.bytes.len());
@@ -97,6 +116,7 @@ impl Check for C05 {
             "truncated" => "input_truncated",
             "random" => "input_random",
             "header-soup" => "input_header_soup",
+            "deep-nesting" => "input_deep_nesting",
             _ => "input_replayed",
         });
         st.inc(if rc.spec.kind == crate::spec::SpecKind::Static { "spec_derive_generated" } else { "spec_dynamic" });
@@ -212,7 +232,7 @@ impl Check for C05 {
         c.shrink(true)
     }
     fn rule(&self) -> &'static str {
-        "One case = specification (generated table or the easy_ebml!-generated StaticSpec) + arbitrary bytes (random / byte-faulted valid document / header soup / valid / truncated) + configuration (tolerated classes, buffered ids, capacity 0.., size limit <= 1 MiB, EOF closing on/off) + delivery schedule with injected hard errors, Interrupted and pauses + a driver history of next()/try_recover() calls. Non-trivial: non-empty input and more than one API call. Distinct: FNV-1a fingerprint of bytes + configuration + schedule + history."
+        "One case = specification (generated table or the easy_ebml!-generated StaticSpec) + arbitrary bytes (random / byte-faulted valid document / header soup / valid / truncated / a master nested in itself 20-400 deep) + configuration (tolerated classes, buffered ids, capacity 0.., size limit <= 1 MiB, EOF closing on/off) + delivery schedule with injected hard errors, Interrupted and pauses + a driver history of next()/try_recover() calls. Non-trivial: non-empty input and more than one API call. Distinct: FNV-1a fingerprint of bytes + configuration + schedule + history."
     }
     fn assumptions(&self) -> Vec<&'static str> {
         vec![
@@ -223,6 +243,6 @@ impl Check for C05 {
         ]
     }
     fn expected_probes(&self) -> Vec<&'static str> {
-        vec!["probe_io_error_surfaced", "probe_io_error_after_queued_items", "probe_recover_ok", "probe_recover_err", "probe_none_after_exhaustion", "spec_derive_generated"]
+        vec!["probe_io_error_surfaced", "probe_io_error_after_queued_items", "probe_recover_ok", "probe_recover_err", "probe_none_after_exhaustion", "spec_derive_generated", "input_deep_nesting"]
     }
 }
